@@ -98,6 +98,11 @@ Vocab(f, max) ==
       [] f = "D" -> [declN |-> {"a"}, useN |-> {"a"}, initN |-> {"a"},
                      callN |-> {}, initCallN |-> {}, funcN |-> {}, paramN |-> {}, quals |-> {},
                      structs |-> {"blk", "if"}, nonempty |-> TRUE, sym |-> FALSE, two |-> FALSE, max |-> max]
+      \* parameters against the declarations of the function's own body (one name, no calls): deeper than F affords
+      [] f = "P" -> [declN |-> {"a"}, useN |-> {"a"}, initN |-> {"a"},
+                     callN |-> {}, initCallN |-> {}, funcN |-> {"f"}, paramN |-> {"a", "b"},
+                     quals |-> {"none", "const"},
+                     structs |-> {"blk"}, nonempty |-> FALSE, sym |-> FALSE, two |-> FALSE, max |-> max]
       [] f = "F" -> [declN |-> {"a"}, useN |-> {"a", AliasVar}, initN |-> {"a"},
                      callN |-> {"a", AliasIns}, initCallN |-> {"a"}, funcN |-> {"a"}, paramN |-> {"a", "b"},
                      quals |-> {"none", "const"},
